@@ -310,6 +310,17 @@ pub fn run_case(ctx: &Ctx, case: u64, ev: &mut Ev) {
                 fail!("c14:distance", format!("distance({:?})[{}] = {} expected {}", x, i, dist[i], e));
             }
         }
+        // the un-normalised variant that contains() is built on (distances_raw, the multi-point variant, is
+        // used nowhere and named by no property: it unwraps a failed broadcast unless the number of points
+        // equals the number of rows - noted in DESIGN.md §6, not asserted here)
+        let raw1 = call!("distance_raw", lp.distance_raw(&arr1(&x)));
+        for i in 0..p.mat.len() {
+            let e1 = Q::from_f64(p.bias[i]).sub(&dot(&qv(&p.mat[i]), &qv(&x))).to_f64();
+            let sc: f64 = 1.0 + p.bias[i].abs() + p.mat[i].iter().map(|v| v.abs()).sum::<f64>() * 10.0;
+            if !((raw1[i] - e1).abs() <= 1e-12 * sc) {
+                fail!("c14:distance_raw", format!("row {}: distance_raw {} expected {}", i, raw1[i], e1));
+            }
+        }
         ev.inc("distance_checks");
     }
 
